@@ -337,9 +337,9 @@ soft_dec!(soft_dec128d, fx::mk128d, 10, 88);
 soft_par_enc!(soft_par_enc128, fx::mk128, crate::Aes128, 10, 88);
 //@ harness name=soft_par_dec128 prop=C04,C03 tier=thorough bits=1922 stub=1 est=530 desc="W(PAR): Aes128::decrypt_blocks on one full batch: output block `lane` == InvCipher(rk, input block `lane`), lane symbolic, other lanes havocked; all round keys, all blocks"
 soft_par_dec!(soft_par_dec128, fx::mk128, crate::Aes128, 10, 88);
-//@ harness name=soft_parl_enc128 prop=C04,C03 tier=quick bits=1920 stub=1 variants=aes:soft64,aes:soft64c,aes:soft32,aes:soft32c est=170 need=8 desc="W(PAR, fixed lane): Aes128::encrypt_blocks on one full batch: the LAST output block == Cipher(rk, last input block) with all other lanes havocked in every stubbed layer (so it depends on no other block); all round keys, all blocks"
+//@ harness name=soft_parl_enc128 prop=C04,C03 tier=quick bits=1920 stub=1 variants=aes:soft64,aes:soft64c,aes:soft32,aes:soft32c quick_variants=aes:soft64 est=170 need=8 desc="W(PAR, fixed lane): Aes128::encrypt_blocks on one full batch: the LAST output block == Cipher(rk, last input block) with all other lanes havocked in every stubbed layer (so it depends on no other block); all round keys, all blocks"
 soft_parl_enc!(soft_parl_enc128, fx::mk128, crate::Aes128, 10, 88);
-//@ harness name=soft_parl_dec128 prop=C04,C03 tier=quick bits=1920 stub=1 variants=aes:soft64,aes:soft64c,aes:soft32,aes:soft32c est=270 need=10 desc="W(PAR, fixed lane): Aes128::decrypt_blocks on one full batch: the LAST output block == InvCipher(rk, last input block), other lanes havocked; all round keys, all blocks"
+//@ harness name=soft_parl_dec128 prop=C04,C03 tier=quick bits=1920 stub=1 variants=aes:soft64,aes:soft64c,aes:soft32,aes:soft32c quick_variants=aes:soft64 est=270 need=10 desc="W(PAR, fixed lane): Aes128::decrypt_blocks on one full batch: the LAST output block == InvCipher(rk, last input block), other lanes havocked; all round keys, all blocks"
 soft_parl_dec!(soft_parl_dec128, fx::mk128, crate::Aes128, 10, 88);
 //@ harness name=soft_conv128 prop=C12 tier=quick bits=5632 est=15 desc="D: Aes128::from(&enc), Aes128::from(enc), Aes128Dec::from(&enc), Aes128Dec::from(enc) and Clone of all three forms carry exactly the key words of the source; arbitrary key words (superset of all keys)"
 soft_conv!(soft_conv128, fx::mk128e, fx::k128, fx::k128e, fx::k128d, crate::Aes128, crate::Aes128Dec, 88);
